@@ -8,13 +8,75 @@ RULE = ('seeded histories (opens with every connect outcome, polls, posts, upgra
         'weighted towards every cause of a session end (CLOSE packet, disconnect() of one and of all sessions, transport drops, clock advances across heartbeat deadlines, protocol errors, handler exceptions) and rejected opens; finished by a long advance so that every end is detected. distinct = distinct (server, configuration, stimuli)')
 
 
+import hist
+# the clauses of the C05 oracle that do not presuppose that a handler runs to completion at once
+SUSPEND_CLAUSES = {'connect-first', 'disconnect-once', 'rejected-silent', 'none-after-disconnect', 'disconnect-exactly-once'}
+RULE += ('. Plus, judged by the oracle alone (the model\'s handlers do not suspend): the same kind of histories with a disconnect handler that waits 1, 64 or 700 ticks of '
+         'virtual time before it returns (a coroutine that awaits / a handler that blocks cooperatively), so that further end causes, requests and frames arrive while it is '
+         'suspended: connect first and once, at most one disconnect, exactly one once ended, nothing for a rejected id, no event after the disconnect event')
+
+
+def suspended(cfg, ops, kind, seed, ticks):
+    r, vs = hsuite.evaluate(kind, cfg, ops, ['c05'], PROFILE['finale'], seed=seed, runner_kw=dict(disc_suspends=ticks))
+    vs = [x for x in vs if x['facts'].get('clause') in SUSPEND_CLAUSES]
+    for x in vs:
+        x['facts']['suspending_handler'] = ticks
+        x['case']['suspend_ticks'] = ticks
+    return r, vs
+
+
+def fixed_suspended():
+    """two end causes while the handler of the first is suspended; traffic in that window"""
+    out = []
+    for opener in (('open', 'polling', 'accept'), ('open', 'websocket', 'accept', True)):
+        ws = opener[1] == 'websocket'
+        msg = (lambda k: ('frame', 0, ('pk', ('msg', k, 'none')))) if ws else (lambda k: ('post', 0, ('pk', [('msg', k, 'none')])))
+        close = ('frame', 0, ('pk', 'close')) if ws else ('post', 0, ('pk', ['close']))
+        for first in (close, ('disc', 0), ('disc', None)):
+            for second in (close, ('disc', 0), ('disc', None), ('wsclose', 0) if ws else ('poll', 0), msg(7)):
+                out.append([opener, msg(1), first, second, msg(2), ('adv', 1000), second, msg(3)])
+    return out
+
+
+def run_suspended(ctx, res):
+    rng = ctx.rng
+    reported = set()
+    hs = [(hist.Cfg(), ops) for ops in fixed_suspended()]
+    for h in range(ctx.n(150, 6000)):
+        cfg = hsuite.gen_cfg(rng, PROFILE)
+        hs.append((cfg, hist.gen_history(rng, cfg, rng.choice([8, 14]), PROFILE['weights'])))
+    for h, (cfg, ops) in enumerate(hs):
+        ticks = [1, 64, 700][h % 3]
+        for kind in ('threaded', 'asyncio'):
+            try:
+                r, vs = suspended(cfg, ops, kind, h, ticks)
+            except Exception as e:
+                res.errors.append('history with a suspending handler crashed the harness on %s: %s %s' % (kind, type(e).__name__, str(e)[:300]))
+                continue
+            res.count((kind, 'suspending', ticks, cfg.key(), tuple(map(repr, r.log))), True, 'suspending:' + kind)
+            for x in vs:
+                key = (x['what'], kind)
+                if key not in reported or len(res.violations) < 40:
+                    res.violations.append(x)
+                reported.add(key)
+
+
 def run(ctx):
-    return hsuite.run(ctx, 'C05', NAMES, PROFILE, RULE)
+    res = hsuite.run(ctx, 'C05', NAMES, PROFILE, RULE)
+    run_suspended(ctx, res)
+    return res
 
 
 def search(ctx, res):
-    return hsuite.run(ctx, 'C05', NAMES, PROFILE, RULE).violations
+    return run(ctx).violations
 
 
 def replay(payload):
-    return hsuite.replay_case(payload['case'], NAMES, PROFILE['finale'])
+    c = payload['case']
+    if c.get('suspend_ticks'):
+        r, vs = suspended(hist.Cfg(*c['cfg']), [hsuite.op_from_json(op) for op in c['ops']], c['server'], 0, c['suspend_ticks'])
+        for x in vs:
+            print(x['what'], x['facts'])
+        print('outs:', r.outs)
+        return not vs
+    return hsuite.replay_case(c, NAMES, PROFILE['finale'])
